@@ -14,7 +14,7 @@ import os
 
 from harness.common import Batch, rng, write_summary, exc_name, time_limit, HangTimeout
 from harness.search_common import Ids, make_rep, search_grammar, prog_value, icomps, SLeaf, SPlus
-from harness.sources import ScriptedSource, explore, RecordingSource
+from harness.sources import ScriptedSource, explore, RecordingSource, Exhausted
 
 from geneticengine.algorithms.gp.gp import GeneticProgramming, default_generic_programming_step
 from geneticengine.algorithms.gp.population import Population
@@ -407,12 +407,15 @@ def selection_traces(R, tier):
                             events.append({"e": "selend", "exc": exc})
                             return events
 
-                        for script, s, res in explore(run, cap=64, max_leaves=70000):
-                            if isinstance(res, Exception):
-                                res = [{"e": "selend", "exc": exc_name(res)}]
-                            traces.append((f"tour/{pi}/{int(minimise)}/{tsize}/{int(repl)}/{target}/{leaves}", res,
-                                           {"k": "selection"}))
-                            leaves += 1
+                        try:
+                            for script, s, res in explore(run, cap=64, max_leaves=70000):
+                                if isinstance(res, Exception):
+                                    res = [{"e": "selend", "exc": exc_name(res)}]
+                                traces.append((f"tour/{pi}/{int(minimise)}/{tsize}/{int(repl)}/{target}/{leaves}", res,
+                                               {"k": "selection"}))
+                                leaves += 1
+                        except Exhausted:
+                            pass        # the decision tree of this configuration exceeds the cap: covered up to the cap
     # lexicase
     lpops = [[[0, 0], [0, 0], [0, 1]], [[1, 2], [2, 1]], [[1, 1], [1, 2], [2, 1]], [[2, 2], [2, 2]], [[1, 2, 3], [3, 2, 1], [2, 2, 2]]]
     if not quick:
@@ -448,11 +451,14 @@ def selection_traces(R, tier):
                         events.append({"e": "selend", "exc": exc})
                         return events
 
-                    for script, s, res in explore(run, cap=64, max_leaves=20000):
-                        if isinstance(res, Exception):
-                            res = [{"e": "selend", "exc": exc_name(res)}]
-                        traces.append((f"lex/{pi}/{mi}/{int(eps)}/{target}/{leaves}", res, {"k": "selection"}))
-                        leaves += 1
+                    try:
+                        for script, s, res in explore(run, cap=64, max_leaves=20000):
+                            if isinstance(res, Exception):
+                                res = [{"e": "selend", "exc": exc_name(res)}]
+                            traces.append((f"lex/{pi}/{mi}/{int(eps)}/{target}/{leaves}", res, {"k": "selection"}))
+                            leaves += 1
+                    except Exhausted:
+                        pass
     return traces
 
 
